@@ -3,11 +3,11 @@
    sum, cumsum, mean, diff, ediff1d apply a linear numpy function to every coefficient column:
    whatever its weights W (result j = sum of w * input i), the polynomial at j is the same linear
    combination of the input's element polynomials.  prod is the ordered product of the slices;
-   inner/outer/matmul are sums of products of re-arranged operands; det follows the 2x2 formula and
-   the first-row Laplace expansion.  All statements are for every shape, operand, term and name set. *)
+   inner/outer/matmul are sums of products of re-arranged operands; det IS the determinant, for every
+   size and every stack of matrices.  All statements are for every shape, operand, term and name set. *)
 From mathcomp Require Import all_ssreflect all_algebra.
 From SsrMultinomials Require Import mpoly.
-From NP Require Import Base Poly Rearr Reduce Abs Align RearrP ReduceP.
+From NP Require Import Base Poly Rearr Reduce Abs Align RearrP ReduceP DetP.
 Set Implicit Arguments. Unset Strict Implicit. Unset Printing Implicit Defensive.
 Import GRing.Theory.
 Local Open Scope ring_scope.
@@ -57,6 +57,22 @@ Theorem C10_det2 o bs fuel (x00 x01 x10 x11 : parr R) r :
       forall i, (i < prodn bs)%N ->
         absE n r i = absE n x00 i * absE n x11 i - absE n x10 i * absE n x01 i].
 Proof. exact: pdet2_spec. Qed.
+
+(* det.py on a stack (batch shape bs) of (d+1) x (d+1) matrices, EVERY size: the result at batch
+   index b is the determinant (MathComp's \det, i.e. the Leibniz formula) of the matrix of element
+   polynomials; proved from the first-row Laplace recursion by induction on the size, with the 1x1
+   and 2x2 base cases of the code *)
+Theorem C10_det o bs d p r :
+  wfb p -> pdet o bs d.+1 p = Ok r ->
+  [/\ wfb r, shape r = bs &
+      forall t : nat, (t < prodn bs)%N ->
+        absE n r t = \det (\matrix_(k < d.+1, l < d.+1) absE n p (t * (d.+1 * d.+1) + k * d.+1 + l))].
+Proof. exact: pdet_spec. Qed.
+
+Theorem C10_det_recursion o bs fuel d (M : seq (seq (parr R))) r :
+  square d.+1 M -> okM bs M -> (d < fuel)%N -> pdetM fuel o bs M = Ok r ->
+  [/\ wfb r, shape r = bs & forall i, (i < prodn bs)%N -> absE n r i = \det (mat n bs d.+1 M i)].
+Proof. exact: pdetM_spec. Qed.
 End C10.
 
 Print Assumptions C10_linear.
@@ -66,3 +82,5 @@ Print Assumptions C10_prod.
 Print Assumptions C10_bilinear.
 Print Assumptions C10_det1.
 Print Assumptions C10_det2.
+Print Assumptions C10_det.
+Print Assumptions C10_det_recursion.
